@@ -99,11 +99,20 @@ def tree_digest():
     return _TD
 
 
-def _csrc_digest(files):
+def _csrc_digest(sources, kind="shim"):
+    """digest of the harness sources that can influence this build: for the shim, shim.c and its shim_*.inc files;
+    for executables, the listed sources plus every header / .inc that is not part of the shim"""
     h = hashlib.sha256()
-    for fn in sorted(os.listdir(os.path.join(VERIF, "csrc"))):
-        with open(os.path.join(VERIF, "csrc", fn), "rb") as f:
-            h.update(fn.encode() + hashlib.sha256(f.read()).digest())
+    d = os.path.join(VERIF, "csrc")
+    for fn in sorted(os.listdir(d)):
+        is_shim = fn.startswith("shim")
+        if kind == "shim":
+            take = is_shim
+        else:
+            take = (fn in sources) or (not is_shim and fn.endswith((".h", ".inc")))
+        if take:
+            with open(os.path.join(d, fn), "rb") as f:
+                h.update(fn.encode() + hashlib.sha256(f.read()).digest())
     return h.hexdigest()
 
 
@@ -124,7 +133,7 @@ def build(cfg, kind="shim", sources=None, out=None, link=(), cflags=(), tables=T
     if sources is None:
         sources = ["shim.c"]
     flags = cfg.flags() + list(cflags)
-    key = hashlib.sha256(("|".join([tree_digest(), _csrc_digest(sources), cfg.cc, " ".join(flags), kind,
+    key = hashlib.sha256(("|".join([tree_digest(), _csrc_digest(sources, kind), cfg.cc, " ".join(flags), kind,
                                     " ".join(sources), " ".join(link), REPO])).encode()).hexdigest()[:20]
     d = os.path.join(BUILD, "%s-%s" % (cfg.name, key))
     outname = out or ("libshim.so" if kind == "shim" else "harness")
